@@ -23,7 +23,8 @@ def run(ctx):
             conds.append(Cond(f"{fn[2:]}/bounded/attempts={na_fn}{tag}", "c18", fn, {"VF_NA": na_fn, "VF_UNBOUNDED": 0, "VF_FIXRO": ro}, to))
             conds.append(Cond(f"{fn[2:]}/default-infinite-bounds/attempts={na_fn}{tag}", "c18", fn, {"VF_NA": na_fn, "VF_UNBOUNDED": 1, "VF_FIXRO": ro}, to))
     conds.append(Cond(f"str+bool/attempts={na}", "c18", "h_str_bool", {"VF_NA": na}, to))
-    conds.append(Cond(f"selection-list+unit/attempts={na}", "c18", "h_selection", {"VF_NA": na}, to))
+    # 3 attempts on the selection list did not finish inside 3000 s: 2 attempts in both tiers
+    conds.append(Cond("selection-list+unit/attempts=2", "c18", "h_selection", {"VF_NA": 2}, to))
     nadd = 3 if q else 4
     for rm in range(-1, nadd):
         conds.append(Cond(f"map/adds={nadd}/remove={'none' if rm < 0 else '#%d' % rm}", "c18", "h_map", {"VF_NADD": nadd, "VF_FIXRM": rm}, to))
